@@ -154,6 +154,9 @@ struct World {
     cfg: *mut Config,
     cfg_profile: u8,
     ctx: *mut RitiContext,
+    /// a second context driven through the Rust API with the same calls: what the C function returns must be what the
+    /// Rust API reports for the same call (arguments that are swapped or dropped on the way show here)
+    twin: Option<RitiContext>,
     sugs: Vec<Option<Sug>>,
     /// length of the list most recently returned by the context (for in-range commits)
     last_len: usize,
@@ -210,7 +213,9 @@ unsafe fn set_profile(w: &mut World, p: u8) {
     riti_config_set_fixed_traditional_kar(cfg, p == 2);
     riti_config_set_fixed_old_reph(cfg, true);
     riti_config_set_fixed_numpad(cfg, true);
-    riti_config_set_fixed_old_kar_order(cfg, p == 3);
+    // (profiles 2 and 3: with the list on a left-standing sign typed first gives a list-style suggestion whose
+    // auxiliary text is empty)
+    riti_config_set_fixed_old_kar_order(cfg, p >= 2);
     riti_config_set_ansi_encoding(cfg, lonely_ansi);
     riti_config_set_smart_quote(cfg, true);
     w.calls += 15;
@@ -219,7 +224,7 @@ unsafe fn set_profile(w: &mut World, p: u8) {
 
 impl World {
     fn new(xdg: &str) -> World {
-        World { cfg: std::ptr::null_mut(), cfg_profile: 0, ctx: std::ptr::null_mut(), sugs: vec![None, None], last_len: 0, last_nonempty: false, calls: 0, strings: 0, problems: vec![], xdg: xdg.to_string() }
+        World { cfg: std::ptr::null_mut(), cfg_profile: 0, ctx: std::ptr::null_mut(), twin: None, sugs: vec![None, None], last_len: 0, last_nonempty: false, calls: 0, strings: 0, problems: vec![], xdg: xdg.to_string() }
     }
     fn enabled(&self, profiles: u8) -> Vec<Act> {
         let mut v = vec![];
@@ -262,13 +267,19 @@ impl World {
         }
         v
     }
-    unsafe fn store(&mut self, p: *mut Suggestion) {
+    unsafe fn store(&mut self, p: *mut Suggestion, twin: Option<Suggestion>) {
         self.calls += 1;
         if p.is_null() {
             self.problems.push("an event returned a null suggestion".into());
             return;
         }
         let exp = expected_of(&*p);
+        if let Some(t) = twin {
+            let te = expected_of(&t);
+            if te != exp {
+                self.problems.push(format!("the suggestion returned through the C function is {:?}, the Rust API returns {:?} for the same call on a context with the same history", exp, te));
+            }
+        }
         self.last_nonempty = !exp.empty;
         self.last_len = if exp.lonely { 1 } else { exp.len };
         let slot = self.sugs.iter().position(|s| s.is_none()).expect("free slot");
@@ -335,11 +346,13 @@ impl World {
             }
             Act::CtxNew => {
                 self.ctx = riti_context_new_with_config(self.cfg);
+                self.twin = Some(RitiContext::new_with_config(&*self.cfg));
                 self.last_len = 0;
                 self.last_nonempty = false;
                 self.calls += 1;
             }
             Act::CtxFree => {
+                self.twin = None;
                 riti_context_free(self.ctx);
                 self.ctx = std::ptr::null_mut();
                 self.last_len = 0;
@@ -349,51 +362,75 @@ impl World {
             Act::Key(k) => {
                 let sel = 0;
                 let p = riti_get_suggestion_for_key(self.ctx, KEYS[k as usize].0, 0, sel);
-                self.store(p);
+                let t = self.twin.as_ref().map(|t| t.get_suggestion_for_key(KEYS[k as usize].0, 0, sel));
+                self.store(p, t);
             }
             Act::KeyRaw(code, m) => {
                 let p = riti_get_suggestion_for_key(self.ctx, code, m, 0);
-                self.store(p);
+                let t = self.twin.as_ref().map(|t| t.get_suggestion_for_key(code, m, 0));
+                self.store(p, t);
             }
             Act::Bs => {
                 let p = riti_context_backspace_event(self.ctx, false);
-                self.store(p);
+                let t = self.twin.as_ref().map(|t| t.backspace_event(false));
+                self.store(p, t);
             }
             Act::CtrlBs => {
                 let p = riti_context_backspace_event(self.ctx, true);
-                self.store(p);
+                let t = self.twin.as_ref().map(|t| t.backspace_event(true));
+                self.store(p, t);
             }
             Act::CommitFirst => {
                 riti_context_candidate_committed(self.ctx, 0);
+                if let Some(t) = &self.twin {
+                    t.candidate_committed(0);
+                }
                 self.last_nonempty = false;
                 self.last_len = 0;
                 self.calls += 1;
             }
             Act::CommitLast => {
                 riti_context_candidate_committed(self.ctx, self.last_len - 1);
+                if let Some(t) = &self.twin {
+                    t.candidate_committed(self.last_len - 1);
+                }
                 self.last_nonempty = false;
                 self.last_len = 0;
                 self.calls += 1;
             }
             Act::Finish => {
                 riti_context_finish_input_session(self.ctx);
+                if let Some(t) = &self.twin {
+                    t.finish_input_session();
+                }
                 self.last_nonempty = false;
                 self.last_len = 0;
                 self.calls += 1;
             }
             Act::Ongoing => {
-                let _ = riti_context_ongoing_input_session(self.ctx);
+                let o = riti_context_ongoing_input_session(self.ctx);
+                if let Some(t) = &self.twin {
+                    if t.ongoing_input_session() != o {
+                        self.problems.push(format!("riti_context_ongoing_input_session says {}, the Rust API says {}", o, !o));
+                    }
+                }
                 self.calls += 1;
             }
             Act::Update => {
                 // in contract only while idle: finish first when a word is in progress
                 if riti_context_ongoing_input_session(self.ctx) {
                     riti_context_finish_input_session(self.ctx);
+                    if let Some(t) = &self.twin {
+                        t.finish_input_session();
+                    }
                     self.last_nonempty = false;
                     self.last_len = 0;
                     self.calls += 1;
                 }
                 riti_context_update_engine(self.ctx, self.cfg);
+                if let Some(t) = self.twin.as_mut() {
+                    t.update_engine(&*self.cfg);
+                }
                 self.calls += 2;
             }
             Act::Read(k) => self.read_all(k as usize),
